@@ -58,6 +58,8 @@ type VC struct {
 	quantKeys   map[string]bool
 	callArgs    map[string][]cval
 	callCount   map[string]int
+	callReach   map[string]Term
+	curReach    Term
 	havocs      []havocEvent
 	closures    map[Term]*closureInfo
 	fnTerms     map[Term]*ssa.Function
